@@ -27,7 +27,7 @@ def generate(tier, rng):
     cases = []
     n = 50 if tier == "quick" else 400
     for k in range(n):
-        base = c02.gen_system(rng, k)
+        base = c02.gen_system(rng, k, falsy=(k % 3 == 1))     # every third system has the items 0 and "" in its dimensions
         uni = base["uni"]
         flows = []
         for i, f in enumerate(base["flows"]):
@@ -36,7 +36,7 @@ def generate(tier, rng):
                               frm=f["frm"], to=f["to"], arr=dict(dims=f["arr"]["dims"], values=vals)))
         slice_dict = {}
         for l in rng.sample(list(uni), rng.choice([0, 0, 1, 1, 2])):
-            slice_dict[l] = rng.choice(uni[l]["items"])
+            slice_dict[l] = rng.choice(uni[l]["items"]) if k % 3 != 1 or rng.random() < 0.4 else uni[l]["items"][0]
         exclp = ["sysenv"] if k % 3 else []
         if k % 5 == 0 and len(base["procs"]) > 2:
             exclp.append(base["procs"][-1])
